@@ -150,18 +150,22 @@ func SkipRows(fn *ssa.Function) []string {
 			out = append(out, kind+" when "+CondText(ifi.Cond, false))
 		}
 	}
-	// predicates and comparators: what a function with a single bool result answers, and when
-	if sig := fn.Signature; sig.Results().Len() == 1 && sig.Results().At(0).Type().String() == "bool" {
+	// what the function returns, and when (comparators, predicates, error exits, looked-up values)
+	if fn.Signature.Results().Len() > 0 {
 		for _, r := range core.Returns(fn) {
 			res := core.Results(r)
-			if len(res) != 1 {
+			if len(res) == 0 {
 				continue
 			}
 			g := "always"
 			if gs := core.ControllingEdges(r.Block()); len(gs) > 0 {
 				g = CondText(gs[0].If.Cond, gs[0].Branch)
 			}
-			out = append(out, "answers "+argText(res[0])+" when "+g)
+			var vs []string
+			for _, v := range res {
+				vs = append(vs, clip(argText(v), 160))
+			}
+			out = append(out, "returns "+strings.Join(vs, ", ")+" when "+clip(g, 160))
 		}
 	}
 	// order of the steps: every call into the repository is listed with the step that precedes it on the
@@ -296,7 +300,7 @@ func SkipRows(fn *ssa.Function) []string {
 	return out
 }
 
-var skipScope = []string{"haproxy", "haproxy/types", "haproxy/template", "haproxy/socket", "converters", "converters/ingress", "converters/gateway", "converters/utils", "converters/configmap", "converters/ingress/annotations", "converters/tracker", "acme", "controller/services", "controller/reconciler", "controller/legacy", "utils/workqueue", "utils"}
+var skipScope = []string{"haproxy", "haproxy/types", "haproxy/template", "haproxy/socket", "converters", "converters/ingress", "converters/gateway", "converters/utils", "converters/configmap", "converters/ingress/annotations", "converters/tracker", "acme", "controller/services", "controller/reconciler", "controller/legacy", "utils/workqueue", "utils", "common/net/ssl"}
 
 // SkipsAll renders the skip table of the current tree (used by `hapverif genskips`).
 func SkipsAll(env *core.Env) map[string][]string {
@@ -346,7 +350,7 @@ var skipGroups = []skipGroup{
 	{"skips-gateway", []string{"C10", "C16", "C03", "C01"}, []string{"converters/gateway"}, "the Gateway API converter"},
 	{"skips-annotations", []string{"C18", "C19", "C16", "C09", "C15", "C03"}, []string{"converters/ingress/annotations"}, "the annotation updater"},
 	{"skips-acme", []string{"C17"}, []string{"acme"}, "the acme signer and client"},
-	{"skips-cache", []string{"C08", "C09", "C15", "C01", "C12"}, []string{"controller/services", "controller/legacy"}, "the cache facades and the services of both runtimes"},
+	{"skips-cache", []string{"C08", "C09", "C15", "C01", "C12", "C17", "C10", "C13"}, []string{"controller/services", "controller/legacy", "common/net/ssl"}, "the cache facades and the services of both runtimes"},
 	{"skips-events", []string{"C14"}, []string{"controller/reconciler"}, "the watchers and the reconciler"},
 	{"skips-queue", []string{"C13", "C12"}, []string{"utils/workqueue", "utils"}, "the work queue and its rate limiters"},
 }
